@@ -567,7 +567,8 @@ func (x *Exec) execLoopInvariant(fr *Frame, l *loop, spec *LoopSpec, entry []*Ed
 	hedge := &Edge{from: nil, to: l.header, cond: hdrReach, st: st, env: layer}
 	// evaluate invariants as assumptions once phis exist: execBlock calls back.
 	fr2 := fr
-	x.pendingInv = append(x.pendingInv, &invHook{l: l, spec: spec, fr: fr2})
+	hook := &invHook{l: l, spec: spec, fr: fr2}
+	x.pendingInv = append(x.pendingInv, hook)
 	pending := map[*ssa.BasicBlock][]*Edge{l.header: {hedge}}
 	r := x.execRegion(fr, l, pending, layer)
 	x.pendingInv = x.pendingInv[:len(x.pendingInv)-1]
@@ -577,6 +578,16 @@ func (x *Exec) execLoopInvariant(fr *Frame, l *loop, spec *LoopSpec, entry []*Ed
 		for i, inv := range spec.Invariants {
 			t := x.evalBool(ce, inv)
 			x.oblige("inv-preserve", name("preserve", i, inv), e.cond, t, l.header.Instrs[0].Pos(), inv.Text, false)
+		}
+		if spec.Decreases != nil && hook.dec0 != nil {
+			m1 := x.coerce(x.eval(ce, spec.Decreases.E), intT).T
+			x.oblige("term", fmt.Sprintf("%sterm@loop%d/decreases", fr.prefix, l.ordinal), e.cond,
+				x.b.And(x.b.Cmp("<=", x.b.Int(0), m1), x.b.Cmp("<", m1, hook.dec0)), l.header.Instrs[0].Pos(), spec.Decreases.Text, false)
+		}
+		if spec.Increases != nil && hook.inc0 != nil {
+			m1 := x.coerce(x.eval(ce, spec.Increases.E), intT).T
+			x.oblige("term", fmt.Sprintf("%sterm@loop%d/progress", fr.prefix, l.ordinal), e.cond,
+				x.b.Cmp(">", m1, hook.inc0), l.header.Instrs[0].Pos(), spec.Increases.Text, false)
 		}
 		// self-check: everything modified was havocked
 		for k, v := range e.st.cells {
@@ -597,6 +608,8 @@ type invHook struct {
 	l    *loop
 	spec *LoopSpec
 	fr   *Frame
+	dec0 *smt.Term // value of the decreases measure at the loop head
+	inc0 *smt.Term // value of the increases measure at the loop head
 }
 
 func (x *Exec) havocState(pre *State, modCells map[*cellKey]bool, modHeaps map[string]bool, tag string) *State {
@@ -669,6 +682,12 @@ func (x *Exec) execBlock(fr *Frame, b *ssa.BasicBlock, edges []*Edge, env *Env) 
 			for _, inv := range h.spec.Invariants {
 				t := x.evalBool(ce, inv)
 				x.assume(reach, t)
+			}
+			if h.spec.Decreases != nil {
+				h.dec0 = x.coerce(x.eval(ce, h.spec.Decreases.E), intT).T
+			}
+			if h.spec.Increases != nil {
+				h.inc0 = x.coerce(x.eval(ce, h.spec.Increases.E), intT).T
 			}
 		}
 	}
